@@ -12,7 +12,13 @@
 //   path <kind> <field> <f:w> <dim> <f:lo> <f:hi> <f:frac> <factor> <npts> <f>*  -> cost=<f> len=<f>
 //                                                  (real PathGeometric::cost(objective) / length())
 // Header `solnrun`  (part C)
-//   run <planner> <obj> <field> <thr: def|inf|<f>> <env> <dim> <seed> <evals> <solves> <goalthr f> [<history: 0|1|[cpks]*>]
+//   run <planner> <obj> <field> <thr: def|inf|<f>> <env> <dim> <seed> <evals> <solves> <goalthr f> [<history: 0|1|[cpksoOrRd]*> [<cfg>]]
+//        history letters (one per continued solve): c continue, p clearSolutionPaths, k planner->clear(), s clear()+clearSolutionPaths,
+//           o = new ProblemDefinition with ANOTHER objective on the same planner (setProblemDefinition + setup, no clear: the
+//           multi-query use of the roadmap planners), O = clear() first, r / R = the same with the REVERSED query (start <-> goal),
+//           d = the planner is re-created from its own PlannerData (PRM / PRMstar / LazyPRM / LazyPRMstar constructors)
+//        cfg: `-` or name=value[,name=value]* applied through planner->params().setParam before setProblemDefinition
+//   params <planner> -> one line `params <planner> name=default|rangeSuggestion ...` (planner->params())
 //        -> `run` header line, then one `snap` line per change of the solution set (printed from inside
 //           the termination condition), one `solve` line per solve, `clear` lines when clear=1
 //           (pdef->clearSolutionPaths() before every continued solve), `end`; each line: the problem
@@ -701,6 +707,37 @@ static ob::PlannerPtr makePlanner(const std::string &n, const ob::SpaceInformati
     return nullptr;
 }
 
+// the public "load a roadmap" constructors
+static ob::PlannerPtr makePlannerFromData(const std::string &n, const ob::PlannerData &pd)
+{
+    if (n == "PRM") return std::make_shared<og::PRM>(pd);
+    if (n == "PRMstar") return std::make_shared<og::PRMstar>(pd);
+    if (n == "LazyPRM") return std::make_shared<og::LazyPRM>(pd);
+    if (n == "LazyPRMstar") return std::make_shared<og::LazyPRMstar>(pd);
+    return nullptr;
+}
+
+static std::string clean(std::string s);
+
+static bool doParams(const std::vector<std::string> &t)
+{
+    if (t.size() != 2)
+        return false;
+    auto space = std::make_shared<ob::RealVectorStateSpace>(2);
+    space->setBounds(0.0, 1.0);
+    auto si = std::make_shared<ob::SpaceInformation>(space);
+    si->setStateValidityChecker([](const ob::State *) { return true; });
+    si->setup();
+    auto planner = makePlanner(t[1], si);
+    if (!planner)
+        return false;
+    std::cout << "params " << t[1];
+    for (auto &kv : planner->params().getParams())
+        std::cout << " " << clean(kv.first) << "=" << clean(kv.second->getValue()) << "|" << clean(kv.second->getRangeSuggestion());
+    std::cout << std::endl;
+    return true;
+}
+
 static std::string clean(std::string s)
 {
     for (char &c : s)
@@ -800,14 +837,12 @@ struct Monitor
 
 static bool doRun(const std::vector<std::string> &t)
 {
-    // run planner obj field thr env dim seed evals solves goalthr [clear]
-    if (t.size() != 11 && t.size() != 12)
+    // run planner obj field thr env dim seed evals solves goalthr [history [cfg]]
+    if (t.size() < 11 || t.size() > 13)
         return false;
-    // history: one letter per continued solve (k >= 1): c = just continue, p = pdef->clearSolutionPaths(),
-    // k = planner->clear() (the problem definition keeps its solutions), s = planner->clear() + clearSolutionPaths()
-    // (what SimpleSetup::clear() does); "0"/"1" = all c / all p
+    // history: one letter per continued solve (k >= 1), see the header comment; "0"/"1" = all c / all p
     std::string hist;
-    if (t.size() == 12)
+    if (t.size() >= 12)
     {
         hist = t[11];
         if (hist == "0")
@@ -815,8 +850,27 @@ static bool doRun(const std::vector<std::string> &t)
         else if (hist == "1")
             hist = std::string(64, 'p');
         for (char ch : hist)
-            if (ch != 'c' && ch != 'p' && ch != 'k' && ch != 's')
+            if (std::string("cpksoOrRd").find(ch) == std::string::npos)
                 return false;
+    }
+    std::vector<std::pair<std::string, std::string>> cfg;
+    if (t.size() == 13 && t[12] != "-")
+    {
+        std::string item;
+        std::string all = t[12] + ",";
+        for (char ch : all)
+        {
+            if (ch != ',')
+            {
+                item += ch;
+                continue;
+            }
+            auto eq = item.find('=');
+            if (eq == std::string::npos || eq == 0)
+                return false;
+            cfg.emplace_back(item.substr(0, eq), item.substr(eq + 1));
+            item.clear();
+        }
     }
     const std::string &pname = t[1], &kind = t[2];
     auto field = vp::parseNat(t[3]);
@@ -844,54 +898,98 @@ static bool doRun(const std::vector<std::string> &t)
     if (dubins && d != 3)
         return false;
     auto si = dubins ? makeDubins(envBoxes((unsigned)*env, 2)) : makeSpace(d, 0.0, 1.0, 0.01, 1, envBoxes((unsigned)*env, d), -1);
-    auto obj = dubins ? ob::OptimizationObjectivePtr(std::make_shared<ob::PathLengthOptimizationObjective>(si)) :
-                        makeObjective(kind, si, (unsigned)*field, 0.5, d);
-    if (!obj)
-        return false;
-    if (thr == "inf")
-        obj->setCostThreshold(obj->infiniteCost());
-    else if (thrv)
-        obj->setCostThreshold(ob::Cost(*thrv));
-    auto pdef = std::make_shared<ob::ProblemDefinition>(si);
     Query q = envQuery((unsigned)*env, d);
-    ob::ScopedState<> start(si), goal(si);
-    for (unsigned i = 0; i < d; ++i)
-        start[i] = q.start[i];
-    double nearest = std::numeric_limits<double>::infinity();
-    std::vector<ob::ScopedState<>> extraStarts;
-    for (auto &xs : q.moreStarts)
-    {
-        extraStarts.emplace_back(si);
+    // the states of the query (kept alive for the whole run: the Monitor compares path end points with them)
+    std::vector<ob::ScopedState<>> keep;
+    keep.reserve(64);
+    auto mk = [&](const std::vector<double> &v) -> ob::ScopedState<> & {
+        keep.emplace_back(si);
         for (unsigned i = 0; i < d; ++i)
-            extraStarts.back()[i] = xs[i];
-    }
-    if (q.goals.size() == 1)
+            keep.back()[i] = v[i];
+        return keep.back();
+    };
+    struct Problem
     {
-        for (unsigned i = 0; i < d; ++i)
-            goal[i] = q.goals[0][i];
-        pdef->setStartAndGoalStates(start, goal, *gthr);
-        nearest = si->distance(start.get(), goal.get());
-        for (auto &xs : extraStarts)
+        ob::ProblemDefinitionPtr pdef;
+        ob::OptimizationObjectivePtr obj;
+        std::string kind;
+        std::vector<const ob::State *> starts;
+        double qbound;
+    };
+    // a problem definition for the environment's query (or the reversed one: first goal -> start) under objective `k`
+    auto makeProblem = [&](const std::string &k, bool reversed, bool first) -> std::optional<Problem> {
+        Problem P;
+        P.kind = k;
+        if (dubins && k != "dublen")
         {
-            pdef->addStartState(xs);
-            nearest = std::min(nearest, si->distance(xs.get(), goal.get()));
+            // a swapped-in objective for the Dubins space: 3 x path length
+            auto m = std::make_shared<ob::MultiOptimizationObjective>(si);
+            m->addObjective(std::make_shared<ob::PathLengthOptimizationObjective>(si), 3.0);
+            m->lock();
+            P.obj = m;
         }
-    }
-    else
-    {
-        pdef->addStartState(start);
-        auto gs = std::make_shared<ob::GoalStates>(si);
-        for (auto &g : q.goals)
+        else if (dubins)
+            P.obj = std::make_shared<ob::PathLengthOptimizationObjective>(si);
+        else   // a swapped-in state-cost integral uses a non-constant field, so that it differs from the length
+            P.obj = makeObjective(k, si, (!first && k == "sci" && *field == 0) ? 1u : (unsigned)*field, 0.5, d);
+        if (!P.obj)
+            return std::nullopt;
+        // the threshold of the run line belongs to the first objective; a swapped-in objective keeps its default
+        if (first)
         {
-            for (unsigned i = 0; i < d; ++i)
-                goal[i] = g[i];
-            gs->addState(goal);
-            nearest = std::min(nearest, si->distance(start.get(), goal.get()));
+            if (thr == "inf")
+                P.obj->setCostThreshold(P.obj->infiniteCost());
+            else if (thrv)
+                P.obj->setCostThreshold(ob::Cost(*thrv));
         }
-        gs->setThreshold(*gthr);
-        pdef->setGoal(gs);
-    }
-    pdef->setOptimizationObjective(obj);
+        P.pdef = std::make_shared<ob::ProblemDefinition>(si);
+        double nearest = std::numeric_limits<double>::infinity();
+        if (reversed)
+        {
+            auto &s0 = mk(q.goals[0]);
+            auto &g0 = mk(q.start);
+            P.pdef->setStartAndGoalStates(s0, g0, *gthr);
+            P.starts.push_back(s0.get());
+            nearest = si->distance(s0.get(), g0.get());
+        }
+        else if (q.goals.size() == 1)
+        {
+            auto &s0 = mk(q.start);
+            auto &g0 = mk(q.goals[0]);
+            P.pdef->setStartAndGoalStates(s0, g0, *gthr);
+            P.starts.push_back(s0.get());
+            nearest = si->distance(s0.get(), g0.get());
+            for (auto &xs : q.moreStarts)
+            {
+                auto &x = mk(xs);
+                P.pdef->addStartState(x);
+                P.starts.push_back(x.get());
+                nearest = std::min(nearest, si->distance(x.get(), g0.get()));
+            }
+        }
+        else
+        {
+            auto &s0 = mk(q.start);
+            P.pdef->addStartState(s0);
+            P.starts.push_back(s0.get());
+            auto gs = std::make_shared<ob::GoalStates>(si);
+            for (auto &g : q.goals)
+            {
+                auto &gg = mk(g);
+                gs->addState(gg);
+                nearest = std::min(nearest, si->distance(s0.get(), gg.get()));
+            }
+            gs->setThreshold(*gthr);
+            P.pdef->setGoal(gs);
+        }
+        P.pdef->setOptimizationObjective(P.obj);
+        P.qbound = std::max(nearest - *gthr, 0.0);
+        return P;
+    };
+    auto P0 = makeProblem(kind, false, true);
+    if (!P0)
+        return false;
+    Problem P = *P0;
     auto planner = makePlanner(pname, si);
     if (!planner)
         return false;
@@ -899,15 +997,23 @@ static bool doRun(const std::vector<std::string> &t)
     if (*env == 5)
         if (auto *bit = dynamic_cast<og::BITstar *>(planner.get()))
             bit->setConsiderApproximateSolutions(true);
-    double qbound = std::max(nearest - *gthr, 0.0);
-    std::cout << "run planner=" << pname << " obj=" << kind << " thr=" << vp::bits(obj->getCostThreshold().value())
-              << " qbound=" << vp::bits(qbound) << std::endl;
-    Monitor mon{si, pdef, obj, start.get(), qbound};
-    for (auto &xs : extraStarts)
-        mon.otherStarts.push_back(xs.get());
+    std::cout << "run planner=" << pname << " obj=" << kind << " thr=" << vp::bits(P.obj->getCostThreshold().value())
+              << " qbound=" << vp::bits(P.qbound) << std::endl;
+    auto applyCfg = [&](const ob::PlannerPtr &pl) {
+        for (auto &kv : cfg)
+        {
+            bool ok = pl->params().hasParam(kv.first) && pl->params().setParam(kv.first, kv.second);
+            std::cout << "cfg " << clean(kv.first) << "=" << clean(kv.second) << " ok=" << (ok ? 1 : 0) << std::endl;
+        }
+    };
+    applyCfg(planner);
+    Monitor mon{si, P.pdef, P.obj, P.starts[0], P.qbound};
+    for (size_t i = 1; i < P.starts.size(); ++i)
+        mon.otherStarts.push_back(P.starts[i]);
+    bool rev = false;
     try
     {
-        planner->setProblemDefinition(pdef);
+        planner->setProblemDefinition(P.pdef);
         planner->setup();
         for (unsigned k = 0; k < *solves; ++k)
         {
@@ -919,18 +1025,64 @@ static bool doRun(const std::vector<std::string> &t)
                 return c > budget;
             });
             char h = (k > 0 && k - 1 < hist.size()) ? hist[k - 1] : 'c';
-            if (h == 'k' || h == 's')
+            if (h == 'k' || h == 's' || h == 'O' || h == 'R')
             {
-                size_t before = pdef->getSolutionCount();
+                size_t before = P.pdef->getSolutionCount();
                 planner->clear();
                 std::cout << "plannerclear solve=" << k << std::endl;
                 // some planners' clear() also empties the problem definition's solution set (SPARS::clearQuery,
                 // PlannerMultiLevel::clear, BundleSpace::clear): then the history restarts like after clearSolutionPaths()
-                if (before > 0 && pdef->getSolutionCount() == 0 && h == 'k')
+                if (before > 0 && P.pdef->getSolutionCount() == 0 && h == 'k')
                     mon.clearSolutions(k);
             }
             if (h == 'p' || h == 's')
                 mon.clearSolutions(k);
+            if (h == 'd')
+            {
+                // the planner is re-created from its own exported roadmap (the public constructor from PlannerData); the
+                // problem definition keeps its solutions
+                ob::PlannerData pd(si);
+                planner->getPlannerData(pd);
+                auto p2 = makePlannerFromData(pname, pd);
+                if (p2)
+                {
+                    std::cout << "fromdata solve=" << k << " vertices=" << pd.numVertices() << " edges=" << pd.numEdges() << std::endl;
+                    planner = p2;
+                    applyCfg(planner);
+                    planner->setProblemDefinition(P.pdef);
+                    planner->setup();
+                }
+                else
+                    std::cout << "fromdata solve=" << k << " unsupported" << std::endl;
+            }
+            if (h == 'o' || h == 'O' || h == 'r' || h == 'R')
+            {
+                // a new problem definition on the same planner: another objective (o/O) or the reversed query (r/R)
+                std::string k2 = P.kind;
+                if (h == 'o' || h == 'O')
+                    k2 = dubins ? (P.kind == "dublen" ? "dublen3" : "dublen") : (P.kind == "len" ? "sci" : "len");
+                else
+                    rev = !rev;
+                auto P2 = makeProblem(k2, rev, false);
+                if (!P2)
+                    return false;
+                P = *P2;
+                {
+                    std::lock_guard<std::mutex> lk(mon.m);
+                    mon.pdef = P.pdef;
+                    mon.obj = P.obj;
+                    mon.start = P.starts[0];
+                    mon.otherStarts.assign(P.starts.begin() + 1, P.starts.end());
+                    mon.qbound = P.qbound;
+                    mon.seenCount = 0;
+                    mon.printed = 0;
+                    mon.shown.clear();
+                    std::cout << "newquery solve=" << k << " obj=" << P.kind << " reversed=" << (rev ? 1 : 0)
+                              << " thr=" << vp::bits(P.obj->getCostThreshold().value()) << " qbound=" << vp::bits(P.qbound) << std::endl;
+                }
+                planner->setProblemDefinition(P.pdef);
+                planner->setup();
+            }
             ob::PlannerStatus st = planner->solve(ptc);
             mon.report("solve", k, calls.load(), " status=" + clean(st.asString()));
         }
@@ -1039,6 +1191,11 @@ static int mainRun()
         if (t[0] == "run")
         {
             if (!doRun(t))
+                std::cout << "bad-op\n";
+        }
+        else if (t[0] == "params")
+        {
+            if (!doParams(t))
                 std::cout << "bad-op\n";
         }
         else if (t[0] == "fmt")
